@@ -359,9 +359,15 @@ func contains(s, sub string) bool {
 
 var c07XFF = []uint32{0x80000000, 0, 0x3f800000, 0x3f800001, 0x80000001, 0x7fc00000, 0xffc00001, 0x7f800000, 0xff800000, 0x3f000000}
 
+var c07Thorough bool
+
 func c07Lists(f func([]rawArch, bool)) {
 	steps := []int64{0, 1, 2, 3, 4, 6}
 	pts := []int64{0, 1, 2, 3, 4, 6, 7}
+	if c07Thorough {
+		steps = []int64{0, 1, 2, 3, 4, 6, 8, 12}
+		pts = []int64{0, 1, 2, 3, 4, 5, 6, 7, 8, 12}
+	}
 	var all []rawArch
 	for _, s := range steps {
 		for _, n := range pts {
@@ -396,8 +402,9 @@ func c07Lists(f func([]rawArch, bool)) {
 }
 
 func runC07(c *fw.Ctx) {
+	c07Thorough = c.Thorough()
 	idx := 0
-	c.R.Bounds["lists"] = "all lists of length 0..3 over steps {0,1,2,3,4,6} x points {0,1,2,3,4,6,7} + 29 boundary lists around 2^31 / 2^32"
+	c.R.Bounds["lists"] = "all lists of length 0..3 over steps {0,1,2,3,4,6} x points {0,1,2,3,4,6,7} (thorough: steps {0,1,2,3,4,6,8,12} x points {0..8,12}) + 29 boundary lists around 2^31 / 2^32 + overflow numerals as retention strings"
 	c.R.Bounds["methods_xff"] = "methods 0..9 x xff bits {-0, 0, 1, nextafter(1), -denormal, NaN x2, +Inf, -Inf, 0.5} through NewHeader; all entry points with (sum, 0.5) and one-rule-invalid header fields"
 	c07Lists(func(archs []rawArch, boundary bool) {
 		idx++
